@@ -7,7 +7,7 @@ is the object of the theorems at `Rops` and is executed on exact rationals at `Q
 
 Accepted subset (anything else raises TranslationError, which the check reports as a broken tie):
   module Iterators.py : docstring + `def` statements only, no decorators; both built-in iterators
-                        present with positional parameters (f, t, X_old, updateX)
+                        present with positional parameters (f, t, X_old, updateX); other functions are helpers
   statements          : docstring; `a, b = f(time, state, True)`; `name = expr`; `name op= expr`
                         (op in + - * /); `return vector_expr, scalar_expr`
   expressions         : names, int/float literals (exact decimals), + - * / with scalar/vector typing,
@@ -16,6 +16,15 @@ Accepted subset (anything else raises TranslationError, which the check reports 
                         the builtins max / min on two scalars (Python's tie rule), and reads of the scalar
                         attributes self._dtmin / self._dtmax (absolute bounds in force) and self.dtmin /
                         self.dtmax (the constructor's fractions of the span) - four different binders
+  normalisation       : the translator works on what the statements compute, not on their count or spelling:
+                        every binding becomes a let (named temporaries, renamed locals, tuple targets of
+                        `a, b = f(t, X, True)` under any names); a private helper - any other function of
+                        Iterators.py, any other method of DESolver - is translated at its call site (callables
+                        f / updateX may be passed on; no in-place update of an argument; no recursion);
+                        `for a, b in <literal table of numbers>` (or a local name bound to one) is unrolled;
+                        `if getDt:` / `if not getDt:` with else or early return is decided statically (the method
+                        is translated once per value of the flag); the private attribute in which solve() keeps
+                        the state of the step (`self._X0`) is discovered from solve, not assumed by name
   DESolver._updateX   : the in-place hook `self._correctdXdt(dt, self._X0, d)` is accepted in this exact form and
                         NOT modelled: the generated text is about models that do not correct derivatives
   numpy aliasing      : `a = b` between vector names binds both names to ONE array; an in-place
@@ -75,6 +84,13 @@ class _Fn:
         self.reserved = set(callables)
         self.fcalls = []     # (source text of time arg, source text of state arg) per derivative call
         self.attrs = {}      # 'attr' of self readable as a scalar -> Gallina name
+        self.helpers = {}    # callee key -> FunctionDef of a private helper (inlined at the call)
+        self.flags = {}      # python name -> bool: parameters whose value is known statically (getDt)
+        self.consts = {}     # python name -> literal tuple of numeric constants (tableau-like tables)
+        self.tuple_call = None   # handler(fn, st) for `a, b = call(...)`
+        self.refattr = None  # the private attribute holding the shape reference of the state
+        self.depth = 0
+        self.params_v = set()    # vector parameters of an inlined helper (may not be updated in place)
         for p, (g, t) in params.items():
             self.env[p] = g
             self.ty[p] = t
@@ -153,12 +169,14 @@ class _Fn:
             key = _callee(e.func)
             if key in self.calls:
                 return self.calls[key](self, e)
+            if key in self.helpers:
+                return self.inline(key, e)
             raise TranslationError('call to unknown function %s' % (key or ast.dump(e.func)[:40]), e, self.name)
         raise TranslationError('unsupported expression %s' % type(e).__name__, e, self.name)
 
     # -- statements ----------------------------------------------------------------------
     def bind(self, n, txt, t, node, alias_of=None):
-        if n in self.reserved:
+        if n in self.reserved or n in self.consts:
             raise TranslationError('assignment to %s' % n, node, self.name)
         if n in self.ty and self.ty[n] != t:
             raise TranslationError('name %s changes type %s -> %s' % (n, self.ty[n], t), node, self.name)
@@ -207,8 +225,138 @@ class _Fn:
         for m in grp:
             self.env[m] = v
 
-    def body(self, ret_types):
-        return self.lets
+    # -- inlining of a private helper (function of the module / method of the class) ------------
+    def inline(self, key, e):
+        """translate the call by translating the helper's straight-line body at the call site"""
+        hd = self.helpers[key]
+        if self.depth >= 4:
+            raise TranslationError('helpers nested too deeply (recursion?)', e, self.name)
+        a = hd.args
+        if a.vararg or a.kwarg or a.kwonlyargs or a.posonlyargs or a.defaults or hd.decorator_list:
+            raise TranslationError('helper %s: unsupported parameter kinds' % hd.name, hd, self.name)
+        names = [x.arg for x in a.args]
+        if key.startswith('self.'):
+            if not names or names[0] != 'self':
+                raise TranslationError('helper method %s has no self' % hd.name, hd, self.name)
+            names = names[1:]
+        if len(names) != len(e.args):
+            raise TranslationError('helper %s called with %d arguments, takes %d' % (hd.name, len(e.args), len(names)), e, self.name)
+        ch = _Fn(self.name + '/' + hd.name, {}, {k: v for k, v in self.calls.items() if k.startswith('self.')})
+        ch.lets, ch.cnt, ch.fcalls = self.lets, self.cnt, self.fcalls          # shared: one let-chain
+        ch.attrs, ch.helpers, ch.refattr, ch.depth = self.attrs, self.helpers, self.refattr, self.depth + 1
+        for pn, arg in zip(names, e.args):
+            if isinstance(arg, ast.Name) and arg.id in self.calls:
+                ch.calls[pn] = self.calls[arg.id]                               # a callable passed on (f, updateX)
+                continue
+            txt, t = self.tr(arg)
+            v = self.fresh(pn)
+            self.lets.append('let %s := %s in' % (v, txt))
+            ch.env[pn], ch.ty[pn] = v, t
+            if t == 'V':
+                ch.alias[pn] = frozenset([pn])
+                ch.params_v.add(pn)
+        ch.reserved = set(ch.calls)
+        r = ch.run_block([st for i, st in enumerate(hd.body) if not (_is_doc(st) and i == 0)])
+        if r is None:
+            raise TranslationError('helper %s does not return a value' % hd.name, hd, self.name)
+        if isinstance(r.value, ast.Tuple):
+            raise TranslationError('helper %s returns a tuple' % hd.name, r, self.name)
+        return ch.tr(r.value)
+
+    # -- blocks --------------------------------------------------------------------------------
+    def static_test(self, test):
+        """value of an `if` test that only involves statically known flags, else None"""
+        if isinstance(test, ast.Name) and test.id in self.flags:
+            return self.flags[test.id]
+        if isinstance(test, ast.UnaryOp) and isinstance(test.op, ast.Not):
+            v = self.static_test(test.operand)
+            return None if v is None else (not v)
+        return None
+
+    @staticmethod
+    def literal_table(e):
+        """a literal tuple / list of numbers or of equally long tuples / lists of numbers, else None"""
+        if not isinstance(e, (ast.Tuple, ast.List)) or not e.elts:
+            return None
+        rows = []
+        for el in e.elts:
+            if isinstance(el, (ast.Tuple, ast.List)):
+                if not el.elts or not all(isinstance(x, ast.Constant) and isinstance(x.value, (int, float)) and not isinstance(x.value, bool) for x in el.elts):
+                    return None
+                rows.append(tuple(el.elts))
+            elif isinstance(el, ast.Constant) and isinstance(el.value, (int, float)) and not isinstance(el.value, bool):
+                rows.append((el,))
+            else:
+                return None
+        if len({len(r) for r in rows}) != 1:
+            return None
+        return rows
+
+    def run_block(self, stmts, in_loop=False):
+        """straight-line statements; returns the ast.Return reached (its value is translated by the caller,
+        in this scope) or None.  `if` only on statically known flags; `for` only over literal tables (unrolled)."""
+        for i, st in enumerate(stmts):
+            if _is_doc(st):
+                continue
+            if isinstance(st, ast.Return):
+                if in_loop:
+                    raise TranslationError('return inside a loop', st, self.name)
+                if st.value is None:
+                    raise TranslationError('return without a value', st, self.name)
+                return st
+            if isinstance(st, ast.If):
+                v = self.static_test(st.test)
+                if v is None:
+                    raise TranslationError('unsupported statement If (condition not known statically)', st, self.name)
+                r = self.run_block(st.body if v else st.orelse, in_loop)
+                if r is not None:
+                    return r
+                continue
+            if isinstance(st, ast.For):
+                if st.orelse:
+                    raise TranslationError('for ... else is not supported', st, self.name)
+                rows = self.literal_table(st.iter)
+                if rows is None and isinstance(st.iter, ast.Name) and st.iter.id in self.consts:
+                    rows = self.consts[st.iter.id]
+                if rows is None:
+                    raise TranslationError('unsupported statement For (only loops over a literal table of numbers are unrolled)', st, self.name)
+                tg = st.target.elts if isinstance(st.target, ast.Tuple) else [st.target]
+                if not all(isinstance(x, ast.Name) for x in tg) or len(tg) != len(rows[0]):
+                    raise TranslationError('loop targets do not match the table', st, self.name)
+                for row in rows:
+                    for x, cst in zip(tg, row):
+                        self.bind(x.id, _num(cst.value, cst), 'S', st)
+                    self.run_block(st.body, True)
+                continue
+            if isinstance(st, ast.Assign) and len(st.targets) == 1 and isinstance(st.targets[0], ast.Tuple):
+                if self.tuple_call is None:
+                    raise TranslationError('unsupported tuple assignment', st, self.name)
+                self.tuple_call(self, st)
+                continue
+            if isinstance(st, ast.Assign) and len(st.targets) == 1 and isinstance(st.targets[0], ast.Name) \
+                    and self.literal_table(st.value) is not None:
+                n = st.targets[0].id
+                if n in self.env or n in self.reserved:
+                    raise TranslationError('a table may not reuse the name %s' % n, st, self.name)
+                self.consts[n] = self.literal_table(st.value)
+                continue
+            if isinstance(st, ast.Assign):
+                self.assign(st)
+                continue
+            if isinstance(st, ast.AugAssign):
+                if type(st.op).__name__ not in ('Add', 'Sub', 'Mult', 'Div'):
+                    raise TranslationError('unsupported augmented operator', st, self.name)
+                if isinstance(st.target, ast.Name) and st.target.id in self.alias and (self.alias[st.target.id] & self.params_v):
+                    raise TranslationError('in-place update of an argument inside a helper', st, self.name)
+                self.augassign(st)
+                continue
+            if isinstance(st, ast.Expr) and self.expr_stmt(st):
+                continue
+            raise TranslationError('unsupported statement %s' % type(st).__name__, st, self.name)
+        return None
+
+    def expr_stmt(self, st):
+        return False
 
 
 def _callee(fn):
@@ -258,52 +406,45 @@ def _iter_call_updateX(fn, e):
     return '(updateX %s %s %s)' % tuple(a for a, _ in args), 'V'
 
 
-def _translate_iterator(fdef):
+def _iter_tuple_call(fn, st):
+    """a, b = f(time, state, True)"""
+    c = st.value
+    tg = st.targets[0].elts
+    if not (isinstance(c, ast.Call) and _callee(c.func) in fn.calls and fn.calls[_callee(c.func)] is _iter_call_f
+            and not c.keywords and len(c.args) == 3
+            and isinstance(c.args[2], ast.Constant) and c.args[2].value is True
+            and len(tg) == 2 and all(isinstance(x, ast.Name) for x in tg)):
+        raise TranslationError('only `dxdt, dt = f(time, state, True)` may unpack a tuple', st, fn.name)
+    a0, t0 = fn.tr(c.args[0])
+    a1, t1 = fn.tr(c.args[1])
+    if (t0, t1) != ('S', 'V'):
+        raise TranslationError('f expects (scalar time, vector state)', st, fn.name)
+    fn.fcalls.append((ast.unparse(c.args[0]), ast.unparse(c.args[1])))
+    fn.bind(tg[0].id, '(f %s %s)' % (a0, a1), 'V', st)
+    fn.bind(tg[1].id, '(getdt %s %s)' % (a0, a1), 'S', st)
+
+
+def _translate_iterator(fdef, helpers):
     _params(fdef, ITER_SIG, fdef.name)
     if fdef.args.defaults:
         raise TranslationError('default arguments are not supported', fdef, fdef.name)
     fn = _Fn(fdef.name, {'t': ('t', 'S'), 'X_old': ('X_old', 'V')}, {'f': _iter_call_f, 'updateX': _iter_call_updateX})
-    ret = None
-    body = list(fdef.body)
-    for i, st in enumerate(body):
-        if ret is not None:
-            raise TranslationError('statement after return', st, fdef.name)
-        if _is_doc(st) and i == 0:
-            continue
-        if isinstance(st, ast.Assign) and len(st.targets) == 1 and isinstance(st.targets[0], ast.Tuple):
-            # dxdt, dt = f(time, state, True)
-            c = st.value
-            tg = st.targets[0].elts
-            if not (isinstance(c, ast.Call) and _callee(c.func) == 'f' and not c.keywords and len(c.args) == 3
-                    and isinstance(c.args[2], ast.Constant) and c.args[2].value is True
-                    and len(tg) == 2 and all(isinstance(x, ast.Name) for x in tg)):
-                raise TranslationError('only `dxdt, dt = f(time, state, True)` may unpack a tuple', st, fdef.name)
-            a0, t0 = fn.tr(c.args[0])
-            a1, t1 = fn.tr(c.args[1])
-            if (t0, t1) != ('S', 'V'):
-                raise TranslationError('f expects (scalar time, vector state)', st, fdef.name)
-            fn.fcalls.append((ast.unparse(c.args[0]), ast.unparse(c.args[1])))
-            fn.bind(tg[0].id, '(f %s %s)' % (a0, a1), 'V', st)
-            fn.bind(tg[1].id, '(getdt %s %s)' % (a0, a1), 'S', st)
-        elif isinstance(st, ast.Assign):
-            fn.assign(st)
-        elif isinstance(st, ast.AugAssign):
-            if type(st.op).__name__ not in ('Add', 'Sub', 'Mult', 'Div'):
-                raise TranslationError('unsupported augmented operator', st, fdef.name)
-            fn.augassign(st)
-        elif isinstance(st, ast.Return):
-            v = st.value
-            if not (isinstance(v, ast.Tuple) and len(v.elts) == 2):
-                raise TranslationError('an iterator must return (new state, step)', st, fdef.name)
-            a, ta = fn.tr(v.elts[0])
-            b, tb = fn.tr(v.elts[1])
-            if (ta, tb) != ('V', 'S'):
-                raise TranslationError('an iterator must return (vector, scalar)', st, fdef.name)
-            ret = '(%s, %s)' % (a, b)
-        else:
-            raise TranslationError('unsupported statement %s' % type(st).__name__, st, fdef.name)
-    if ret is None:
+    fn.helpers = helpers
+    fn.tuple_call = _iter_tuple_call
+    body = [st for i, st in enumerate(fdef.body) if not (_is_doc(st) and i == 0)]
+    r = fn.run_block(body)
+    if r is None:
         raise TranslationError('no return statement', fdef, fdef.name)
+    if r is not body[-1]:
+        pass        # an early return reached through statically decided branches: later statements are dead
+    v = r.value
+    if not (isinstance(v, ast.Tuple) and len(v.elts) == 2):
+        raise TranslationError('an iterator must return (new state, step)', r, fdef.name)
+    a, ta = fn.tr(v.elts[0])
+    b, tb = fn.tr(v.elts[1])
+    if (ta, tb) != ('V', 'S'):
+        raise TranslationError('an iterator must return (vector, scalar)', r, fdef.name)
+    ret = '(%s, %s)' % (a, b)
     text = 'Definition %s_gen %s (t : T O) (X_old : V) : V * T O :=\n  %s\n  %s.' % (fdef.name, ITER_BINDERS, '\n  '.join(fn.lets), ret)
     return text, fn.fcalls
 
@@ -315,6 +456,7 @@ def translate_iterators(src):
     except SyntaxError as e:
         raise TranslationError('Iterators.py does not parse: %s' % e)
     defs, info, seen = [], {}, set()
+    fdefs = []
     for i, st in enumerate(mod.body):
         if _is_doc(st) and i == 0:
             continue
@@ -323,9 +465,15 @@ def translate_iterators(src):
         if st.name in seen:
             raise TranslationError('function %s defined twice' % st.name, st, 'Iterators.py')
         seen.add(st.name)
-        text, fcalls = _translate_iterator(st)
-        defs.append(text)
-        info[st.name] = {'derivative_calls': [{'time': a, 'state': b} for a, b in fcalls], 'line': st.lineno}
+        fdefs.append(st)
+    # functions other than the two built-in iterators are private helpers: inlined where they are called
+    helpers = {st.name: st for st in fdefs if st.name not in REQUIRED}
+    for st in fdefs:
+        if st.name in REQUIRED:
+            text, fcalls = _translate_iterator(st, helpers)
+            defs.append(text)
+            info[st.name] = {'derivative_calls': [{'time': a, 'state': b} for a, b in fcalls], 'line': st.lineno}
+    info['helpers'] = sorted(helpers)
     for r in REQUIRED:
         if r not in seen:
             raise TranslationError('built-in iterator %s is missing' % r, None, 'Iterators.py')
@@ -353,12 +501,13 @@ def _is_self_attr(e, attr):
 
 
 def _reshape_call(fn, e):
-    """self._unflattenX(a, self._X0) / self._flattenX(a): a change of shape only, identity on the
-    flat vector the iterator works with (assumption, sampled by the harness with multi-array states)"""
+    """self._unflattenX(a, self.<ref>) / self._flattenX(a): a change of shape only, identity on the
+    flat vector the iterator works with (assumption, sampled by the harness with multi-array states);
+    <ref> is the private attribute in which solve() stores the state of the current step"""
     key = _callee(e.func)
     if key == 'self._unflattenX':
-        if len(e.args) != 2 or not _is_self_attr(e.args[1], '_X0'):
-            raise TranslationError('_unflattenX must be called with (array, self._X0)', e, fn.name)
+        if len(e.args) != 2 or fn.refattr is None or not _is_self_attr(e.args[1], fn.refattr):
+            raise TranslationError('_unflattenX must be called with (array, self.%s)' % (fn.refattr or '<state reference>'), e, fn.name)
     elif len(e.args) != 1:
         raise TranslationError('_flattenX must be called with one argument', e, fn.name)
     a, ta = fn.tr(e.args[0])
@@ -396,7 +545,42 @@ def translate_solver(src):
     info = {}
     defs = []
 
-    # ---- _getdXdt(self, t, x, getDt=False)
+    # ---- the call in solve:  <a>, dt = self.iterator(self._getdXdt, <time>, self._flattenX(<X>), self._updateX)
+    #      and the private attribute in which solve keeps <X> as the shape reference of the step
+    s = _find_method(cls, 'solve')
+    calls_found = [n for n in ast.walk(s) if isinstance(n, ast.Call) and _is_self_attr(n.func, 'iterator')]
+    if len(calls_found) != 1:
+        raise TranslationError('expected exactly one call of self.iterator in solve', s, 'solve')
+    c = calls_found[0]
+    if not (len(c.args) == 4 and not c.keywords and _is_self_attr(c.args[0], '_getdXdt') and isinstance(c.args[1], ast.Name)
+            and isinstance(c.args[2], ast.Call) and _is_self_attr(c.args[2].func, '_flattenX') and len(c.args[2].args) == 1
+            and isinstance(c.args[2].args[0], ast.Name) and _is_self_attr(c.args[3], '_updateX')):
+        raise TranslationError('iterator is not called as self.iterator(self._getdXdt, time, self._flattenX(X), self._updateX)', c, 'solve')
+    state_var = c.args[2].args[0].id
+    refs = sorted({n.targets[0].attr for n in ast.walk(s)
+                   if isinstance(n, ast.Assign) and len(n.targets) == 1 and isinstance(n.targets[0], ast.Attribute)
+                   and isinstance(n.targets[0].value, ast.Name) and n.targets[0].value.id == 'self'
+                   and isinstance(n.value, ast.Name) and n.value.id == state_var})
+    refs = [r for r in refs if r not in SOLVER_ATTRS]
+    if len(refs) != 1:
+        raise TranslationError('solve does not store the state of the step in exactly one attribute: %r' % refs, s, 'solve')
+    refattr = refs[0]
+    info['solve'] = {'iterator_call': ast.unparse(c), 'time_variable': c.args[1].id, 'state_reference': 'self.' + refattr, 'line': c.lineno}
+
+    # private helper methods (straight-line, inlined where called): every method of the class that is not one
+    # of the translated entry points; only those actually called are looked at
+    entry = {'_getdXdt', '_updateX', 'solve', 'setIterator'}
+    helpers = {'self.' + st.name: st for st in cls.body if isinstance(st, ast.FunctionDef) and st.name not in entry}
+
+    def new_fn(name, params, calls):
+        fn = _Fn(name, params, calls)
+        fn.attrs = dict(SOLVER_ATTRS)
+        fn.reserved |= {'max', 'min'}
+        fn.refattr = refattr
+        fn.helpers = {k: v for k, v in helpers.items() if k not in calls}
+        return fn
+
+    # ---- _getdXdt(self, t, x, getDt=False): translated twice, with getDt known
     g = _find_method(cls, '_getdXdt')
     a = _params(g, ['self', 't', 'x', 'getDt'], '_getdXdt')
     if not (len(a.defaults) == 1 and isinstance(a.defaults[0], ast.Constant) and a.defaults[0].value is False):
@@ -404,94 +588,66 @@ def translate_solver(src):
     calls = {'self._unflattenX': _reshape_call, 'self._flattenX': _reshape_call, 'self._f': _call_model_f,
              'self._getDt': _call_model_dt}
     body = [st for i, st in enumerate(g.body) if not (_is_doc(st) and i == 0)]
-    if not body or not isinstance(body[-1], ast.If):
-        raise TranslationError('expected the body to end with `if getDt: ... else: ...`', g, '_getdXdt')
-    branch = body[-1]
-    if not (isinstance(branch.test, ast.Name) and branch.test.id == 'getDt' and branch.orelse):
-        raise TranslationError('expected `if getDt:` with an else branch', branch, '_getdXdt')
 
-    def run(stmts, want):
-        fn = _Fn('_getdXdt', {'t': ('t', 'S'), 'x': ('x', 'V')}, calls)
-        fn.attrs = dict(SOLVER_ATTRS)
-        fn.reserved |= {'max', 'min'}
-        for st in stmts:
-            if isinstance(st, ast.Return):
-                v = st.value
-                if want == 'pair':
-                    if not (isinstance(v, ast.Tuple) and len(v.elts) == 2):
-                        raise TranslationError('expected `return derivative, dt`', st, '_getdXdt')
-                    p, tp = fn.tr(v.elts[0])
-                    q, tq = fn.tr(v.elts[1])
-                    if (tp, tq) != ('V', 'S'):
-                        raise TranslationError('expected (vector, scalar)', st, '_getdXdt')
-                    return fn, (p, q)
-                p, tp = fn.tr(v)
-                if tp != 'V':
-                    raise TranslationError('expected a vector', st, '_getdXdt')
-                return fn, (p,)
-            if isinstance(st, ast.Assign):
-                fn.assign(st)
-            else:
-                raise TranslationError('unsupported statement %s' % type(st).__name__, st, '_getdXdt')
-        raise TranslationError('no return statement', g, '_getdXdt')
-    fn1, (d1,) = run(body[:-1] + list(branch.orelse), 'single')
-    fn2, (d2, dt2) = run(body[:-1] + list(branch.body), 'pair')
+    def run(flag):
+        fn = new_fn('_getdXdt', {'t': ('t', 'S'), 'x': ('x', 'V')}, dict(calls))
+        fn.flags = {'getDt': flag}
+        r = fn.run_block(body)
+        if r is None:
+            raise TranslationError('no return statement (getDt=%r)' % flag, g, '_getdXdt')
+        v = r.value
+        if flag:
+            if not (isinstance(v, ast.Tuple) and len(v.elts) == 2):
+                raise TranslationError('expected `return derivative, dt`', r, '_getdXdt')
+            p_, tp = fn.tr(v.elts[0])
+            q_, tq = fn.tr(v.elts[1])
+            if (tp, tq) != ('V', 'S'):
+                raise TranslationError('expected (vector, scalar)', r, '_getdXdt')
+            return fn, (p_, q_)
+        p_, tp = fn.tr(v)
+        if tp != 'V':
+            raise TranslationError('expected a vector', r, '_getdXdt')
+        return fn, (p_,)
+    fn1, (d1,) = run(False)
+    fn2, (d2, dt2) = run(True)
     defs.append('Definition getdXdt_gen %s (t : T O) (x : V) : V :=\n  %s\n  %s.' % (SOLVER_BINDERS, '\n  '.join(fn1.lets), d1))
     defs.append('Definition getdXdt_dt_gen %s (t : T O) (x : V) : V * T O :=\n  %s\n  (%s, %s).' % (SOLVER_BINDERS, '\n  '.join(fn2.lets), d2, dt2))
-    info['_getdXdt'] = {'model_calls': [{'time': p, 'state': q} for p, q in fn1.fcalls + fn2.fcalls], 'line': g.lineno}
+    info['_getdXdt'] = {'model_calls': [{'time': p_, 'state': q_} for p_, q_ in fn1.fcalls + fn2.fcalls], 'line': g.lineno}
 
     # ---- _updateX(self, x, dxdt, dt)
     u = _find_method(cls, '_updateX')
     a = _params(u, ['self', 'x', 'dxdt', 'dt'], '_updateX')
     if a.defaults:
         raise TranslationError('default arguments are not supported', u, '_updateX')
-    fn = _Fn('_updateX', {'x': ('x', 'V'), 'dxdt': ('dxdt', 'V'), 'dt': ('dt', 'S')},
-             {'self._unflattenX': _reshape_call, 'self._flattenX': _reshape_call})
-    ret = None
+    fn = new_fn('_updateX', {'x': ('x', 'V'), 'dxdt': ('dxdt', 'V'), 'dt': ('dt', 'S')},
+                {'self._unflattenX': _reshape_call, 'self._flattenX': _reshape_call})
     hook_seen = []
-    for i, st in enumerate(u.body):
-        if _is_doc(st) and i == 0:
-            continue
-        if ret is not None:
-            raise TranslationError('statement after return', st, '_updateX')
-        if isinstance(st, ast.Assign):
-            fn.assign(st)
-        elif isinstance(st, ast.Expr) and isinstance(st.value, ast.Call) and _callee(st.value.func) == 'self._correctdXdt':
-            # in-place correction hook: self._correctdXdt(dt, self._X0, unflatdxdt)
-            c = st.value
-            if not (len(c.args) == 3 and not c.keywords and _is_self_attr(c.args[1], '_X0') and isinstance(c.args[2], ast.Name)):
-                raise TranslationError('_correctdXdt must be called with (dt, self._X0, derivative name)', st, '_updateX')
-            h, th = fn.tr(c.args[0])
-            d, td = fn.tr(c.args[2])
-            if (th, td) != ('S', 'V'):
-                raise TranslationError('_correctdXdt expects (scalar, state, vector)', st, '_updateX')
-            # The hook corrects the derivative IN PLACE (and, because _unflattenX of GenericModel returns
-            # views, also the array the iterator holds).  The generated model covers models that do
-            # not correct derivatives (the hook is the default no-op): the call is recorded, not modelled.
-            hook_seen.append(ast.unparse(c))
-        elif isinstance(st, ast.Return):
-            r, tr_ = fn.tr(st.value)
-            if tr_ != 'V':
-                raise TranslationError('expected a vector', st, '_updateX')
-            ret = r
-        else:
-            raise TranslationError('unsupported statement %s' % type(st).__name__, st, '_updateX')
-    if ret is None:
+
+    def hook(st):
+        # in-place correction hook: self._correctdXdt(dt, self.<ref>, unflatdxdt)
+        if not (isinstance(st.value, ast.Call) and _callee(st.value.func) == 'self._correctdXdt'):
+            return False
+        c_ = st.value
+        if not (len(c_.args) == 3 and not c_.keywords and _is_self_attr(c_.args[1], refattr) and isinstance(c_.args[2], ast.Name)):
+            raise TranslationError('_correctdXdt must be called with (dt, self.%s, derivative name)' % refattr, st, '_updateX')
+        h, th = fn.tr(c_.args[0])
+        d, td = fn.tr(c_.args[2])
+        if (th, td) != ('S', 'V'):
+            raise TranslationError('_correctdXdt expects (scalar, state, vector)', st, '_updateX')
+        # The hook corrects the derivative IN PLACE (and, because _unflattenX of GenericModel returns
+        # views, also the array the iterator holds).  The generated model covers models that do
+        # not correct derivatives (the hook is the default no-op): the call is recorded, not modelled.
+        hook_seen.append(ast.unparse(c_))
+        return True
+    fn.expr_stmt = hook
+    r = fn.run_block([st for i, st in enumerate(u.body) if not (_is_doc(st) and i == 0)])
+    if r is None:
         raise TranslationError('no return statement', u, '_updateX')
+    ret, tr_ = fn.tr(r.value)
+    if tr_ != 'V':
+        raise TranslationError('expected a vector', r, '_updateX')
     defs.append('Definition updateX_gen %s (x dxdt : V) (dt : T O) : V :=\n  %s\n  %s.' % (SOLVER_BINDERS, '\n  '.join(fn.lets), ret))
     info['_updateX'] = {'line': u.lineno, 'correction_hook_assumed_noop': hook_seen}
-
-    # ---- the call in solve:  <a>, dt = self.iterator(self._getdXdt, <time>, self._flattenX(X0), self._updateX)
-    #      followed by  <time> += dt
-    s = _find_method(cls, 'solve')
-    calls_found = [n for n in ast.walk(s) if isinstance(n, ast.Call) and _is_self_attr(n.func, 'iterator')]
-    if len(calls_found) != 1:
-        raise TranslationError('expected exactly one call of self.iterator in solve', s, 'solve')
-    c = calls_found[0]
-    if not (len(c.args) == 4 and not c.keywords and _is_self_attr(c.args[0], '_getdXdt') and isinstance(c.args[1], ast.Name)
-            and isinstance(c.args[2], ast.Call) and _is_self_attr(c.args[2].func, '_flattenX') and _is_self_attr(c.args[3], '_updateX')):
-        raise TranslationError('iterator is not called as self.iterator(self._getdXdt, time, self._flattenX(X), self._updateX)', c, 'solve')
-    info['solve'] = {'iterator_call': ast.unparse(c), 'time_variable': c.args[1].id, 'line': c.lineno}
 
     # ---- setIterator maps the two enum members to the two translated functions
     si = _find_method(cls, 'setIterator')
